@@ -293,7 +293,7 @@ def sequences(run, kind, depth, want, walks=0, seed=1):
 
 
 def _call_key(e):
-    k = {x: e.get(x) for x in ("op", "cmpop", "ranks", "scores", "tau", "limit", "mu", "arg", "a", "b")}
+    k = {x: e.get(x) for x in ("op", "cmpop", "ranks", "scores", "tau", "limit", "mu", "arg", "a", "b", "args", "attr", "value")}
     k["m"] = e.get("model", {}).get("id")
     t = e.get("teams")
     k["teams"] = json.dumps(t, sort_keys=True)[:0] + (json.dumps([[l.get("ref") for l in tm.get("items", [])] for tm in t.get("items", [])]) if t and t.get("t") == "list" else "")
